@@ -79,7 +79,7 @@ func (c *Ctx) atlasAnchors(r *Report, rule string) *atlasAnchors {
 
 func ruleC17(c *Ctx, r *Report) {
 	an := c.anchors()
-	if !requireAnchors(r, an, "C17-anchor") {
+	if !requireAnchors(r, an, "C17-anchor", "redact") {
 		return
 	}
 	a := c.atlasAnchors(r, "C17-anchor")
